@@ -290,6 +290,25 @@ pub fn text_or_bed3(t: Option<Text>) -> (r: Text)
 pub open spec fn stored_text(t: Option<Text>) -> Seq<u8> {
     match t { Some(x) => x.bytes(), None => bed3() }
 }
+/// the predicate `!a.trim().is_empty()` on a text: uninterpreted, except for the one fact used: it is FALSE for the empty
+/// text (`"".trim()` is `""`)
+pub uninterp spec fn not_blank(t: Seq<u8>) -> bool;
+/// `autosql.filter(|a| !a.trim().is_empty())`: Option::filter's real contract (None stays None; Some(x) is kept iff the
+/// predicate holds for x, else None) over the named predicate
+#[verifier::external_body]
+pub fn filter_not_blank(t: Option<Text>) -> (r: Option<Text>)
+    ensures
+        t is None ==> r is None,
+        t matches Some(x) ==> r == (if not_blank(x.bytes()) { Some(x) } else { None::<Text> }),
+        t matches Some(x) ==> (x.bytes().len() == 0 ==> !not_blank(x.bytes())),
+{ unimplemented!() }
+/// `autosql.filter(|a| !a.is_empty())`: the same with the predicate "has at least one byte"
+#[verifier::external_body]
+pub fn filter_nonempty(t: Option<Text>) -> (r: Option<Text>)
+    ensures
+        t is None ==> r is None,
+        t matches Some(x) ==> r == (if x.bytes().len() > 0 { Some(x) } else { None::<Text> }),
+{ unimplemented!() }
 /// what `parse_autosql` finds in the text: the field count of every declaration, in order (None: parse error).
 /// Abstract here; the parser itself is units asql_loops / asql_tok.
 pub uninterp spec fn decl_counts(t: Seq<u8>) -> Option<Seq<int>>;
@@ -518,11 +537,14 @@ fn write_pre(
         final(file).wf(),
 {
     let ghost d0 = file.data();
-    let ghost t = stored_text(autosql);
 
         write_blank_headers(file)?;
 
         let autosql = text_or_bed3(autosql);
+
+        // `t` = the text the code goes on with (the local that shadows the parameter): the step assertions below say that
+        // THIS text is laid out; the postconditions say that it must be the supplied one (`stored_text(autosql)`)
+        let ghost t = autosql.bytes();
 
         let field_count = schema_field_count(&autosql);
         let field_count = field_count.unwrap_or(3) as u16;
